@@ -386,3 +386,58 @@ Print Assumptions C08_lower_ignores_type_stmts.
 Print Assumptions C08_order_then_backend_erase.
 Print Assumptions C08_resolver_order_backend.
 Print Assumptions C08_seed_order_example.
+
+(* ---- resolver agent: the computable hypothesis replaced by a syntactic one, needed on the annotated side only.
+   ann_types_only: every type named by the annotation of a definition anywhere in the resolved program is the slot of a
+   type statement (a blob or enum declaration).  It implies ann_deps_ok (dependency sets are strictly sorted, so
+   equal filtered sets are equal lists), and the resolver's output on an erased program satisfies it outright. ---- *)
+From Sylt Require Dep.AnnTypes Resolve.AnnErasePost.
+
+Theorem C08_ann_types_only_deps_ok : forall tgt ss,
+  Sylt.Dep.AnnTypes.ann_types_only tgt ss = true -> Sylt.Dep.AnnOrder.ann_deps_ok tgt ss = true.
+Proof. exact Sylt.Dep.AnnTypes.ann_types_only_deps_ok. Qed.
+
+Theorem C08_erased_ann_types_only : forall fl hp hr tgt ast r,
+  Sylt.Resolve.Resolver.resolve fl (Sylt.Resolve.AnnErase.erase_ann Sylt.Resolve.AnnErase.implied hp hr ast)
+  = Sylt.Resolve.Resolver.Ok r ->
+  Sylt.Dep.AnnTypes.ann_types_only tgt (r_stmts r) = true.
+Proof. exact Sylt.Resolve.AnnErasePost.erased_ann_types_only. Qed.
+
+Theorem C08_order_then_backend_erase_types : forall tgt fuel req r1 r2 l1,
+  same_modulo_annotations r1 r2 ->
+  Sylt.Dep.AnnTypes.ann_types_only tgt (r_stmts r1) = true -> Sylt.Dep.AnnTypes.ann_types_only tgt (r_stmts r2) = true ->
+  Sylt.Dep.Topo.init_order tgt (r_stmts r1) = Sylt.Dep.Topo.OOk l1 ->
+  exists l2, Sylt.Dep.Topo.init_order tgt (r_stmts r2) = Sylt.Dep.Topo.OOk l2
+    /\ Emit.backend fuel req (mkResolved (r_vars r1) l1) = Emit.backend fuel req (mkResolved (r_vars r2) l2).
+Proof. exact Sylt.Dep.AnnTypes.order_then_backend_erase_types. Qed.
+
+Theorem C08_resolver_order_verdict_types : forall fl tgt ast r1 r2,
+  Sylt.Resolve.Resolver.resolve fl ast = Sylt.Resolve.Resolver.Ok r1 ->
+  Sylt.Resolve.Resolver.resolve fl (Sylt.Resolve.AnnErase.erase_all_annotations ast) = Sylt.Resolve.Resolver.Ok r2 ->
+  Sylt.Dep.AnnTypes.ann_types_only tgt (r_stmts r1) = true ->
+  Sylt.Dep.AnnOrder.onf (Sylt.Dep.Topo.initialization_order tgt (r_stmts r1))
+  = Sylt.Dep.AnnOrder.onf (Sylt.Dep.Topo.initialization_order tgt (r_stmts r2)).
+Proof. exact Sylt.Resolve.AnnEraseLua.resolver_order_verdict_types. Qed.
+
+Theorem C08_resolver_order_backend_types : forall fl tgt fuel req ast r1 r2 l1,
+  Sylt.Resolve.Resolver.resolve fl ast = Sylt.Resolve.Resolver.Ok r1 ->
+  Sylt.Resolve.Resolver.resolve fl (Sylt.Resolve.AnnErase.erase_all_annotations ast) = Sylt.Resolve.Resolver.Ok r2 ->
+  Sylt.Dep.AnnTypes.ann_types_only tgt (r_stmts r1) = true ->
+  Sylt.Dep.Topo.init_order tgt (r_stmts r1) = Sylt.Dep.Topo.OOk l1 ->
+  exists l2, Sylt.Dep.Topo.init_order tgt (r_stmts r2) = Sylt.Dep.Topo.OOk l2
+    /\ Emit.backend fuel req (mkResolved (r_vars r1) l1) = Emit.backend fuel req (mkResolved (r_vars r2) l2).
+Proof. exact Sylt.Resolve.AnnEraseLua.resolver_order_backend_types. Qed.
+
+Theorem C08_seed_types_only :
+  exists r1,
+    Sylt.Resolve.Resolver.resolve (Sylt.Resolve.Resolver.mkFlags true true true false false) Sylt.Resolve.AnnEraseLua.seed_annotated
+    = Sylt.Resolve.Resolver.Ok r1
+    /\ Sylt.Dep.AnnTypes.ann_types_only true (r_stmts r1) = true.
+Proof. eexists. split; [vm_compute; reflexivity|]. vm_compute. reflexivity. Qed.
+
+Print Assumptions C08_ann_types_only_deps_ok.
+Print Assumptions C08_erased_ann_types_only.
+Print Assumptions C08_order_then_backend_erase_types.
+Print Assumptions C08_resolver_order_verdict_types.
+Print Assumptions C08_resolver_order_backend_types.
+Print Assumptions C08_seed_types_only.
